@@ -5,8 +5,8 @@ Driver for the `write` stream of E6 (C01; go/harness/mcp/zz_verif_clientwrite_te
 through the real ClientSession over the real StreamableClientTransport.
 
   reset
-  wscn kind=<call|notif> auth=<none|grant|deny|block> cancel=<0|1> a1=<ans> a2=<ans>            obs ok
-       ans: terr | hang | st<code>[r] (r: JSON-RPC error body) | ok:<json|jsonbad|jsoncut|sse|other>:<s|x> (x: foreign session id)
+  wscn kind=<call|notif> auth=<none|grant|deny|block> [ts=<fine|tserr|tokerr|invalidgrant>] cancel=<0|1> a1=<ans> a2=<ans>   obs ok
+       ans: terr | hang | st<code>[r] (r: JSON-RPC error body) | ok:<json|jsonbad|jsoncut|jsonhang|sse|other>:<s|x> (x: foreign session id)
   posts                                        obs n=<POSTs of the message> tok=<0/1 per POST> auth=<Authorize calls>
   end                                          obs result | done | err:<kind> | hang
   probe                                        obs ok | err | skipped
@@ -23,7 +23,7 @@ def kv (toks : List String) (k : String) : Option String :=
   (toks.find? (fun t => t.startsWith (k ++ "="))).map (fun t => dropS t (k.length + 1))
 
 def parsePayload : String → Option Payload
-  | "json" => some .json | "jsonbad" => some .jsonBad | "jsoncut" => some .jsonCut | "sse" => some .sse
+  | "json" => some .json | "jsonbad" => some .jsonBad | "jsoncut" => some .jsonCut | "jsonhang" => some .jsonHang | "sse" => some .sse
   | "other" => some .other | _ => none
 
 def parseAns (s : String) : Option Ans :=
@@ -41,8 +41,11 @@ def parseAns (s : String) : Option Ans :=
 def parseAuth : String → Option Auth
   | "none" => some .none | "grant" => some .grant | "deny" => some .deny | "block" => some .block | _ => none
 
+def parseTS : String → Option TS
+  | "fine" => some .fine | "tserr" => some .tsErr | "tokerr" => some .tokErr | "invalidgrant" => some .invalidGrant | _ => none
+
 def showEKind : EKind → String
-  | .terr => "terr" | .ctx => "ctx" | .auth => "auth" | .rpc => "rpc" | .transient c => s!"st{c}" | .gone => "session-missing"
+  | .tokenSource => "token-source" | .terr => "terr" | .ctx => "ctx" | .auth => "auth" | .rpc => "rpc" | .transient c => s!"st{c}" | .gone => "session-missing"
   | .status c => s!"st{c}" | .mismatch => "mismatch" | .ctype => "ctype" | .body => "body" | .decode => "decode"
 
 def showEnd : End → String
@@ -63,10 +66,10 @@ def parseProbe : String → Option ProbeObs
   | "ok" => some .ok | "err" => some .err | "skipped" => some .skipped | _ => none
 
 def Clause.text : Clause → String
-  | .sent => "C01: the message was not POSTed exactly once (a second POST is allowed only after a 401/403 and a granted authorization, a third never)"
+  | .sent => "C01: the message was not POSTed exactly once (not at all only when the token source fails; a second POST only after a 401/403 and a granted authorization; a third never)"
   | .auth => "C01: the OAuth handler was asked to authorize more than once for one message, or without a 401/403 (#882: no re-prompt for a request already abandoned)"
   | .ctx => "C01: the request stayed blocked after the caller's context had ended"
-  | .pending => "C01: the request stays blocked although nothing is pending (every POST answered, no authorization running)"
+  | .pending => "C01: the request stays blocked although nothing is pending (every POST answered, every body delivered, no authorization running)"
   | .own => "C01: the request completed successfully although the server's response to it never came back"
   | .notLost => "C01: the server's response came back (2xx, complete, the session's id) but the request did not complete with it"
   | .keeps => "C01: a per-message rejection (or a completed request) left the connection unusable: the next call failed"
@@ -87,10 +90,11 @@ def engine : Engine DState where
       let r : Option Scn := do
         let kind ← match kv rest "kind" with | some "call" => some Kind.call | some "notif" => some Kind.notif | _ => none
         let auth ← (kv rest "auth").bind parseAuth
+        let ts ← match kv rest "ts" with | none => some TS.fine | some t => parseTS t
         let cancel ← match kv rest "cancel" with | some "0" => some false | some "1" => some true | _ => none
         let a1 ← (kv rest "a1").bind parseAns
         let a2 ← (kv rest "a2").bind parseAns
-        let s : Scn := { kind := kind, auth := auth, cancel := cancel, a1 := a1, a2 := a2 }
+        let s : Scn := { kind := kind, auth := auth, ts := ts, cancel := cancel, a1 := a1, a2 := a2 }
         if decide (ScnOK s) then some s else none
       match r with
       | some s => ({ scn := some s }, { model := "ok" })
